@@ -40,6 +40,17 @@ def obligations(res):
     ]
 
 
+MULTI_UNIT = [
+    '<start> ::= "x" "x" "ab"\n',
+    '<start> ::= <a>+ "abc" <a>*\n<a> ::= "x" | "yz"\n',
+    '<start> ::= <k> "=" <v> ";"\n<k> ::= "key" | "k"\n<v> ::= "val" | "value" | "v"\n',
+    '<start> ::= "ab" "cd" "ef" | "abc" "def"\n',
+    '<start> ::= <h>{1,2} b"ABC" <t>?\n<h> ::= b"x" | b"xy"\n<t> ::= b"END"\n',
+    '<start> ::= <bit>{8} b"AB" <bit>{8}\n<bit> ::= 0 | 1\n',
+    '<start> ::= ("ab" | "a") ("bc" | "c") "d"\n',
+]
+
+
 def compositions(word):
     n = len(word)
     if n == 0:
@@ -91,6 +102,10 @@ def gen_worker(args):
         spec = gen_grammar.gen_spec(rng, kinds=kinds, depth=rng.randint(1, 3), n_nt=rng.randint(1, 3))
         if rng.random() < 0.2:
             spec = gen_grammar.gen_nullable_spec(rng)
+            is_bytes = 'b"' in spec
+        elif rng.random() < 0.3:
+            # literals of several units that start in the middle of a piece and are cut by its end
+            spec = rng.choice(MULTI_UNIT)
             is_bytes = 'b"' in spec
         try:
             fan = Fandango(spec)
